@@ -60,6 +60,11 @@ Theorem C18_longest_run_separator : forall a b x La Lb,
 Proof. exact longest_run_split. Qed.
 Print Assumptions C18_longest_run_separator.
 
+(** the longest run is 0 exactly when the series holds no 1 at all *)
+Theorem C18_no_ones_no_run : forall l L, longest_run l L -> (L = 0 <-> ~ In 1 l).
+Proof. exact longest_run_zero. Qed.
+Print Assumptions C18_no_ones_no_run.
+
 Example C18_example :
   lroo [0; 1; 1; 0; 1; 1; 1; 0; 1] = 3 /\ lroo [1; 0; 1; 0] = 0 /\
   croo [(3, 1); (1, 1); (2, 0); (4, 1)] = 2 /\ croo [(1, 1); (2, 1); (3, 0)] = 0 /\
